@@ -131,6 +131,11 @@ func condWorld(r *R) {
 		default:
 			w.ctx = root
 		}
+		if wctx >= 3 && r.Choose(5, "own-err") == 4 {
+			// the caller's own Context implementation, whose Err() is a value of its own
+			w.ctx.OwnErr()
+			r.Probe("waiter-context-with-own-error-value")
+		}
 		waiters[i] = w
 	}
 	type sigOp struct {
